@@ -256,6 +256,12 @@ def hasPresence (syn : Syn) (f : FieldD) : Bool :=
 /-- `isJSONCompliant` -/
 def jsonCompliant (syn : Syn) : Bool := syn != .proto2
 
+/-- `msg.Options().GetMessageSetWireFormat()` of a resolved extendee -/
+def extendeeIsMessageSet (env : Env) (extendee : String) : Bool :=
+  match findMsg env (dropDot extendee) with
+  | some (m, _) => m.messageSet == some true
+  | none => false
+
 /-- `validateField` -/
 def validateFieldOpts (env : Env) (syn : Syn) (f : FieldD) : List Rule :=
   let e1 : List Rule :=
@@ -273,8 +279,13 @@ def validateFieldOpts (env : Env) (syn : Syn) (f : FieldD) : List Rule :=
       if requiresOpen && closed then ["closed-enum-implicit"] else []
     else []
   let e3 : List Rule := if f.defaultValue.isSome && !hasPresence syn f then ["default-implicit"] else []
+  -- `validateExtension`
   let e4 : List Rule :=
-    if f.extendee != "" && decide (f.number > Int.ofNat fieldMax) then ["tag-too-high"] else []
+    if f.extendee == "" then []
+    else if extendeeIsMessageSet env f.extendee then
+      (if f.type != some 11 then ["msgset-scalar-ext"] else []) ++
+      (if f.label == some 3 then ["msgset-repeated-ext"] else [])
+    else if decide (f.number > Int.ofNat fieldMax) then ["tag-too-high"] else []
   e1 ++ e2 ++ e3 ++ e4
 
 /-- the shape shared by `validateFieldJSONNames` and `validateJSONNamesInEnum`: walk the entries
